@@ -9,6 +9,11 @@ qm_c07 — driver for M-Check / M-VM (C07). One request per line:
   (check f h:l _ …)      `checkAnn P f anns`                                      →  ok | reject <pc> <reason…>
   (certify)              `indicesOk` + `inferAnn`/`checkAnn` on every function    →  ok <#functions> | reject <f> <pc> <reason…>
   (annotations)          inferred annotations of every function                   →  anns (h:l _ …) (…) …
+  (step f pc s l variant)  **`stepInstr`** on a synthetic process: the instruction at `pc` of function `f` of
+                         the loaded program, current frame ⟨f, base 0, captures(f), pc⟩ over one other
+                         frame, `s` stack cells, `l` locals; `variant` shapes the top of the stack:
+                         plain | nil | tup:<n> | fn:<g> | builtin | proc   →  ok <depth> <f'> <pc'> <stack> <locals rel. to the
+                         current frame's base> <park> | err <Class>
   (transfer Op:arg pc n caps h l)   the abstract transfer function                    →  ok pc':h:l … | reject <reason>
 
 Instruction tokens: the Rust variant name, then `:`-separated arguments (`Jump:-3`, `TailCall:1`,
@@ -19,11 +24,26 @@ open QM QM.VM
 namespace C07Driver
 open QM.VM.Wire
 
-/-- Synthetic process of a given shape for `(step …)`: `h` dummy values on the stack (`top` on
-top if given), `l` locals, one frame of function 0 at counter `pc`. -/
-def shapeProc (h l pc : Nat) (top : List Val) : Proc :=
-  { stack := top ++ List.replicate (h - top.length) (Val.int 0), locals := List.replicate l (Val.int 0),
-    frames := [⟨0, 0, 0, pc⟩] }
+/-- Synthetic process of a given shape for `(step …)`: `s` values on the stack (`top` on top if
+given, the rest integers), `l` integer locals, the frame ⟨f, 0, cc, pc⟩ on top of one other frame. -/
+def shapeProc (f cc pc s l : Nat) (top : List Val) : Proc :=
+  { stack := top ++ List.replicate (s - top.length) (Val.int 0), locals := List.replicate l (Val.int 0),
+    frames := [⟨f, 0, cc, pc⟩, ⟨f, 0, 0, 0⟩] }
+
+def ints (n : Nat) : ValList := ValList.ofList (List.replicate n (Val.int 0))
+
+def parseVariant (P : Prog) (tok : String) : Option (List Val) :=
+  match tok.splitOn ":" with
+  | ["plain"] => some []
+  | ["nil"] => some [Val.nil]
+  | ["tup", n] => n.toNat?.map (fun k => [Val.tup 2 (ints k)])
+  | ["fn", g] => g.toNat?.bind (fun g => (P.functions[g]?).map (fun fn => [Val.fn g (ints fn.captures)]))
+  | ["builtin"] => some [Val.builtin 0]
+  | ["proc"] => some [Val.proc 1 0]
+  | _ => none
+
+def parkName : Park → String
+  | .none => "none" | .spawning => "spawning" | .selecting => "selecting" | .effecting => "effecting"
 
 def dummyOracle : Oracle :=
   { isType := fun _ _ => false, valuesEqual := fun _ _ => true,
@@ -61,6 +81,23 @@ def step (P : Prog) (req : List Sx) : Prog × String :=
     | some (f, pc, why) => (P, s!"reject {f} {pc} {why}")
   | [.list [.atom "annotations"]] =>
     (P, "anns " ++ " ".intercalate ((List.range P.functions.size).map (fun f => "(" ++ renderAnns (inferAnn P f) ++ ")")))
+  | [.list [.atom "step", f, pc, sLen, l, variant]] =>
+    match f.asNat, pc.asNat, sLen.asNat, l.asNat, variant.asAtom.bind (parseVariant P) with
+    | some f, some pc, some sLen, some l, some top =>
+      match P.functions[f]? with
+      | none => (P, "no-such-function")
+      | some fn =>
+        match fn.instructions[pc]? with
+        | none => (P, "no-such-instruction")
+        | some i =>
+          match stepInstr dummyOracle P (shapeProc f fn.captures pc sLen l top) i with
+          | .error e => (P, s!"err {e.className}")
+          | .ok (p', _) =>
+            match p'.frames with
+            | [] => (P, "ok 0 0 0 0 0 none")
+            | t :: _ =>
+              (P, s!"ok {p'.frames.length} {t.functionIndex} {t.counter} {p'.stack.length} {p'.locals.length - t.localsBase} {parkName p'.park}")
+    | _, _, _, _, _ => (P, "bad-request")
   | [.list [.atom "transfer", op, pc, n, caps, h, l]] =>
     match op.asAtom.bind parseInstr, pc.asNat, n.asNat, caps.asNat, h.asNat, l.asNat with
     | some i, some pc, some n, some caps, some h, some l =>
